@@ -497,6 +497,7 @@ pub fn run_check(eng: &'static dyn Engine, o: &Opts) -> i32 {
                 "runs_per_hour": if search_wall > 0.0 { (a.evaluations as f64 / search_wall * 3600.0) as u64 } else { 0 },
                 "search_wall_s": search_wall,
                 "components": eng.components(),
+                "other_corpora_explored_before_this_run": std::env::var("VERIF_OTHER_CORPORA").unwrap_or_default(),
                 "replays": replay_paths,
             },
             "assumptions": [
